@@ -158,15 +158,28 @@ def written_fields(f):
     return w
 
 
+def _raw(f, e, depth=0):
+    if not isinstance(e, dict):
+        return 'null'
+    if e.get('k') == 'mem':
+        return _raw(f, e['base'], depth) + ('->' if e['arrow'] else '.') + e['field']
+    return sx(e)
+
+
 def canon(f, e, depth=0):
-    """Expression string with single-definition locals expanded when their defining expression
-    reads nothing the function writes (so the expansion means the same everywhere)."""
+    """Expression string with single-definition locals that merely name a field chain expanded
+    (`before = old->prev; before->next = after` reads as `old->prev->next = old->next`).  The
+    expansion is used only when nothing in the function stores to that very lvalue, so the local and
+    the chain denote the same object wherever both are in scope."""
     if not isinstance(e, dict):
         return 'null'
     if e.get('k') == 'var' and e.get('sc') == 'local' and depth < 4:
         d = f.single_def(e['name'])
-        if d and d[1].get('k') in ('mem', 'var') and not ({x['field'] for x in walk(d[1]) if x.get('k') == 'mem'} & written_fields(f)):
-            return canon(f, d[1], depth + 1)
+        if d and d[1].get('k') == 'mem':
+            target = _raw(f, d[1])
+            clobbered = any(t.ev['k'] == 'store' and _raw(f, t.ev['lhs']) == target for t in f.stores())
+            if not clobbered:
+                return canon(f, d[1], depth + 1)
         return e['name']
     if e.get('k') == 'mem':
         return canon(f, e['base'], depth) + ('->' if e['arrow'] else '.') + e['field']
